@@ -4,6 +4,7 @@ package main
 
 import (
 	"go/ast"
+	"go/token"
 	"go/types"
 	"strings"
 
@@ -288,7 +289,20 @@ func checkC18(c *Ctx) {
 			if fn != sessM || len(call.Args) != 1 {
 				continue
 			}
-			for _, lit := range litsOfType(info, call.Args[0], sessT, false) {
+			arg := unparen(call.Args[0])
+			// the literal held in a single-definition local: cfg := Session{...}; db.Session(&cfg)
+			if u, ok := arg.(*ast.UnaryExpr); ok && u.Op == token.AND {
+				if id, ok := unparen(u.X).(*ast.Ident); ok {
+					if d := resolveLocal(f, id); d != nil {
+						arg = d
+					}
+				}
+			} else if id, ok := arg.(*ast.Ident); ok {
+				if d := resolveLocal(f, id); d != nil {
+					arg = d
+				}
+			}
+			for _, lit := range litsOfType(info, arg, sessT, false) {
 				ctx := compositeField(lit, "Context")
 				if ctx == nil {
 					continue
